@@ -189,7 +189,7 @@ PROPS = {
              "table tags is C03's subject and is covered here only by the document-level oracle in safe mode.",
         technique="Lean 4 theorems (induction over the row loop / the paragraph's lines) over a hand-written model; differential correspondence check "
                   "against extension.NewTableParagraphTransformer().Transform and TableHTMLRenderer; document-level oracle on goldmark.Convert output",
-        components=["table"],
+        components=["table", "convertx"],
         explanation="Theorems over all sources/paragraphs about GM.Model.Table (parseRow_len, parseRow_align, parseRow_padding, header_guard, "
                     "transform_first_delim, table_rectangular, one_header, parseDelimiter_needs_dash, rendered_rectangular against GM.Spec.Table.Rectangular); "
                     "component table compares Transform's AST (alignments, rows, per-cell alignment/segment/escaped-pipe positions, remaining paragraph lines) and "
@@ -443,7 +443,7 @@ PROPS = {
                   "regenerated from the Go source by a go/ast translator) over hand-written models; function-level differential correspondence driving the real "
                   "Parse/Open/Transform/softLineBreak through the public API; the real extension parsers inside the real loop vs the loop model; metamorphic "
                   "oracles on the real library",
-        components=["inlineloop", "extdecline", "table", "conservative"],
+        components=["inlineloop", "extdecline", "table", "conservative", "convertx"],
         tie=["inlineloop", "extdecline", "table"],
         explanation="Theorems in GM.Props.C11 over GM.Model.InlineLoop (helpers GM.Proof.InlineLoop, InlineLoopUnused), GM.Model.ExtDecline/ExtLoop (helpers "
                     "GM.Proof.ExtDecline, ExtLoop, ExtWriter), GM.Model.InlinesLoop/InlinesLoopX (helper GM.Proof.InlinesLoopX, reusing the loop invariant of the "
@@ -504,7 +504,17 @@ PROPS = {
               "the end, which the spec's own comparison ignores). Kernel-checked: the escape-spelling axis as a law of the modelled text writer "
               "(Write(escSpell c s) = RawWrite(s) for ALL printable-ASCII strings and ALL per-character choices of literal / backslash / "
               "decimal / hex / named-entity spelling, entity names checked against the table regenerated from /repo), tag balance of the "
-              "expected HTML of every tree, independence of the expected HTML from every spelling choice.",
+              "expected HTML of every tree, independence of the expected HTML from every spelling choice. Emphasis (6.2), which the tree generator "
+              "avoids where the delimiter-run rules decide (intraword runs, the multiple-of-3 rule, which opener a closer takes), is decided by a second "
+              "spec-side reference, GM.Spec.CMEmph (source bytes -> prescribed HTML by the delimiter-stack algorithm of the spec's appendix, without its "
+              "openers_bottom optimisation, with code spans (6.1) taking precedence; it reproduces all 180 spec.json examples inside its alphabet, 121 of "
+              "the 132 of section 6.2 and 18 of the 22 of section 6.1), compared with the "
+              "implementation on EVERY short string over the delimiter alphabets (component cmemph); kernel-checked about that reference, for all token "
+              "sequences: the tree spells back exactly the source characters (emph_preserves_text), every <em>/<strong> pairs a run that can open with a "
+              "later run of the same character that can close under the multiple-of-3 condition (emph_sound_rules_1_8), the HTML is tag-balanced "
+              "(emph_html_balanced) and its text content is the tree's (emph_html_text); the algorithm is structurally recursive (no fuel); the appendix's "
+              "openers_bottom table, keyed by (character, can-open, length mod 3), never changes the reference's result "
+              "(emph_openers_bottom_is_optimisation), while keyed without the length it does (witness *a**b**c*y: the seeded change C02-7).",
         note="Trusted: Lean kernel (+ propext, Classical.choice, Quot.sound); the spec-side model GM.Spec.CommonMark as a reading of the "
              "specification (its wellFormed side conditions were triaged against spec.json's examples; see notes/status_C02.md); the Lean "
              "compiler/runtime for the generator; the harness. Not proved: any statement about the parsers. Known deviation reported under its "
@@ -514,7 +524,7 @@ PROPS = {
              "a rejected title: notes/status_convert.md R1-R5), repaired in /repo 0539a73; the inputs stay in its fixed list.",
         technique="Lean 4 spec-side generator (trees x choices -> Markdown, prescribed HTML) + differential run against the real library; "
                   "Lean theorems for the escape-spelling law over the writer model; spec examples x licensed rewrites",
-        components=["cmspec", "inlines", "linerec", "blocks", "convert"],
+        components=["cmspec", "cmemph", "inlines", "linerec", "blocks", "convert"],
         explanation="Component cmspec: (1) the driver enumerates the exhaustive small scope (families of trees of depth <= 2 x every value of "
                     "their choice axes: escapes of all 95 printable characters, ATX/Setext, fences, thematic breaks, list markers/offsets/"
                     "tightness, ordered starts, link styles/label variants/titles, emphasis delimiters and contexts, code spans, adjacent "
@@ -522,8 +532,18 @@ PROPS = {
                     "the HTML is compared with the model's expected HTML; (2) the 652 spec examples under 6 licensed rewrites (extra/missing "
                     "final newline, paragraph or thematic break before/after) compared with spec.json's HTML plus the added block, for the "
                     "examples goldmark renders byte-identically and where the rewrite is safe. Theorems: escSpell_decodes(_any), "
-                    "escHtml_eq_rawWrite, expected_balanced, spell_choice_independent_expected.",
+                    "escHtml_eq_rawWrite, expected_balanced, spell_choice_independent_expected. Component cmemph (spec-side emphasis reference "
+                    "GM.Spec.CMEmph, driver ops `cmspec emph|emphi`): every string of length <= 7 (9 thorough) over {a, space, *, _}, <= 6 (7) over "
+                    "{a, b, space, *, _, ., backslash}, <= 6 (7) over {a, space, *, newline, backslash}, <= 4 (5) over {a, *, _, e-acute, no-break space, em dash, "
+                    "euro sign, space}, <= 7 (8) over {a, space, *, backtick, backslash}, <= 6 (7) over {a, backtick, *, _, space, newline}, every string of length <= 6 "
+                    "over {a, space, *, _} and <= 5 over {a, space, *, backtick} as ATX heading content, the family of 4-5 delimiter runs of "
+                    "lengths 1..3 with varied separators (opener / closer refused by the multiple-of-3 rule / later closers), 20k (300k) random strings of "
+                    "length 8..40, all spec.json examples inside the reference's alphabet (the reference must reproduce spec.json too); goldmark's bytes "
+                    "compared with the prescribed bytes, clause emphasis-differs. Known deviation under its own clause: a backslash escape at the start of "
+                    "the line after a `backslash, two spaces, line ending` hard break (escape-after-backslash-spaces-break-differs, KNOWN_FINDINGS). "
+                    "Theorems: emph_preserves_text, emph_sound_rules_1_8, emph_html_balanced, emph_html_text, emph_openers_bottom_is_optimisation.",
         assumptions=["the Lean model GM.Spec.CommonMark is a correct reading of CommonMark 0.31.2 on wellFormed trees (it is the specification side of the comparison)",
+                     "GM.Spec.CMEmph is a correct reading of CommonMark 0.31.2 sections 6.1, 6.2, 2.4, 6.7/6.8 on documents inside emphOnly (validated on every run against the spec.json examples in scope)",
                      "GM.Model.Writer models defaultWriter.Write (tied by component render under C10)"],
     ),
     "C05": dict(
@@ -584,11 +604,11 @@ PROPS = {
 NOT_CLAIMED = {}
 
 # ---- C08 texts after package quotesim (notes/status_quotesim.md) ----
-PROPS["C08"]['claim'] = "Partial. PROVED (kernel-checked, Lean 4): (1) line level, for EVERY tab-free line and start column, over the model of goldmark's line recognisers tied by component linerec: marker consumption of blockquoteParser.process and column invariance of every offset-taking recogniser. (2) block level, over the executable model GM.Model.Blocks of parseBlocks/openBlocks/closeBlocks and the ten default block parsers (tied to the real parser by component blocks), by a forward SIMULATION between the block phase on D and on '> '-prefixed D (GM/Proof/QuoteSim*.lean): from related states (same open-block stack with one Blockquote at the bottom, node stores equal up to the extra node and segments moved by the markers in front of their line, reader shifted, same context keys) the one-line step of Open of all ten parsers, Continue of all ten (fenced code / list item under explicit side conditions), Close of nine (not listParser.Close) and of the driver (closeBlocks, openBlocks with its goto-retry loop, RequireParagraph path and contract monitor, the per-line loop) ends in related states; on every line the Blockquote consumes exactly '> '. WHOLE RUNS (quote_prefix_simulation_partial): for every D without tab/CR that ends with a line feed and has no byte that can start a list item (- * + digits): if the model's block phase on D ends normally, has read all lines and built a well-shaped store (three decidable facts about the run on D alone), then the block phase on prefixed D ends normally and its tree is Document[Blockquote[tree of D, segments moved]] (GM.Props.Blocks.QuotePrefixSimulation). SEARCHED, not proved: those three facts about the original run (driver oracle `blocks quotesimhyp`, every class source of component blocks), documents with list items or without final line feed (driver oracle `blocks quotesim` on every tab/CR-free source), and C08 on HTML through the inline phase and renderer (metamorphic component quote: Convert(prefix^n D) = wrap^n(Convert D))."
-PROPS["C08"]['note'] = "Trusted: Lean kernel (+ propext, Classical.choice, Quot.sound); the models GM.Model.LineRec / GM.Model.Blocks and their ties (components linerec, blocks: exhaustive small scopes + corpora, 0 disagreements); the hook file; the harness. NOT proved: listParser.Close under the relation (it reads HasBlankPreviousLines, which differs inside a quote for the quote's direct children, parser.go:1099, and must be shown equal for list items through the blank-line statistics); a last line without line feed (Advance(-1) in fenced code / list item Continue); no-panic, 'every non-blank top-level line opens a block' and 'no empty line segment' for the original run (open C01/C05(c) obligations of the block phase); inline phase and renderer."
+PROPS["C08"]['claim'] = "Partial. PROVED (kernel-checked, Lean 4): (1) line level, for EVERY tab-free line and start column, over the model of goldmark's line recognisers tied by component linerec: marker consumption of blockquoteParser.process and column invariance of every offset-taking recogniser. (2) block level, over the executable model GM.Model.Blocks of parseBlocks/openBlocks/closeBlocks and the ten default block parsers (tied to the real parser by component blocks), by a forward SIMULATION between the block phase on D and on '> '-prefixed D (GM/Proof/QuoteSim*.lean): from related states (same open-block stack with one Blockquote at the bottom, node stores equal up to the extra node and segments moved by the markers in front of their line, reader shifted, same context keys) the one-line step of Open of all ten parsers, Continue of all ten (fenced code / list item under explicit side conditions), Close of nine (not listParser.Close) and of the driver (closeBlocks, openBlocks with its goto-retry loop, RequireParagraph path and contract monitor, the per-line loop) ends in related states; on every line the Blockquote consumes exactly '> '. WHOLE RUNS, for every D without tab/CR that ends with a line feed and has no byte that can start a list item (- * + digits): UNCONDITIONALLY (quote_prefix_run) the block phase on D and on prefixed D both end normally (no panic: GM.Props.Blocks.no_panic; B: no panic, monitor silent, fuel suffices), the final node stores are related, the original run reads every line (nonblank_line_opens_block: a non-blank line always opens a block), its Document has no lines and is nobody's child, and it builds no List/ListItem node; and (quote_prefix_simulation_class) under ONE remaining decidable assumption about the run on D alone - no line/info/closure segment it stores is empty (SegsNE) - the tree of prefixed D is Document[Blockquote[tree of D, segments moved]] (GM.Props.Blocks.QuotePrefixSimulation). SEARCHED, not proved: that remaining fact about the original run (driver oracle `blocks quotesimhyp`, every class source of component blocks), documents with list items or without final line feed (driver oracle `blocks quotesim` on every tab/CR-free source), and C08 on HTML through the inline phase and renderer (metamorphic component quote: Convert(prefix^n D) = wrap^n(Convert D))."
+PROPS["C08"]['note'] = "Trusted: Lean kernel (+ propext, Classical.choice, Quot.sound); the models GM.Model.LineRec / GM.Model.Blocks and their ties (components linerec, blocks: exhaustive small scopes + corpora, 0 disagreements); the hook file; the harness. NOT proved: 'no stored segment of the original run is empty' (SegsNE: an empty segment standing exactly behind the line feed of its line would be moved by the markers of the wrong line; needs 'paragraph lines are never blank' through paragraphParser.Close's trimming together with the parser/kind consistency of the open blocks - the C05(c)-type invariant of the block phase; evaluated per source); listParser.Close under the relation (it reads HasBlankPreviousLines, which differs inside a quote for the quote's direct children, parser.go:1099, and must be shown equal for list items through the blank-line statistics); a last line without line feed (Advance(-1) in fenced code / list item Continue); inline phase and renderer. Discharged since the first version: no-panic of the original run (GM.Props.Blocks.no_panic), 'every non-blank top-level line opens a block' (was ReadToEnd), Document without lines / nobody's child, no List/ListItem node (store invariant UStore carried through the simulation's driver walk, GM/Proof/QuoteSimInv*.lean)."
 PROPS["C08"]['technique'] = 'Lean 4: forward simulation between two runs of the executable block-phase model (relational Hoare calculus S2, per-parser and driver lemmas, induction over lines) + line-level theorems; correspondence ties; Lean-defined oracles; metamorphic search'
-PROPS["C08"]['explanation'] = "Proved (GM.Props.C08, 18 theorems): line level as before (quote_consumes_marker/_nospace, quote_declines, offset_invariant, offset_invariant_quote, offset_invariant_list, indent_pos_tabfree); block level: quote_first_line, quote_marker_every_line (the driver / the Blockquote's Continue consumes exactly '> ' on every line), quote_step_open / quote_step_continue / quote_step_close (one line step of every block parser from related states), quote_driver_close_blocks / quote_driver_open_blocks / quote_driver_line (the driver preserves the relation), quote_prefix_run (B ends normally when A does, stores related), quote_prefix_simulation_partial / _checked (the tree statement for the class). Full statement kept unproved as def QuotePrefixSimulationAll. Searched: blocks quotesim (tree statement on every tab/CR-free non-blank source of component blocks: quick 516k, 0 failures), blocks quotesimhyp (hypotheses of the whole-run theorem on every class source: quick 37k, 0 failures; a failure is reported as 'hypothesis of the theorems not met'), component quote on HTML."
-PROPS["C08"]['assumptions'] = ["documents contain no tab and no carriage return (the property's proviso)", "whole-run theorem only: D ends with a line feed and contains none of - * + 0-9; the model's run on D ends normally, reads all lines and builds a well-shaped store (evaluated per source by the driver, not proved)", 'inline phase and renderer do not distinguish the two trees beyond the wrapping (searched by component quote)']
+PROPS["C08"]['explanation'] = "Proved (GM.Props.C08, 20 theorems): line level as before (quote_consumes_marker/_nospace, quote_declines, offset_invariant, offset_invariant_quote, offset_invariant_list, indent_pos_tabfree); block level: quote_first_line, quote_marker_every_line (the driver / the Blockquote's Continue consumes exactly '> ' on every line), quote_step_open / quote_step_continue / quote_step_close (one line step of every block parser from related states), quote_driver_close_blocks / quote_driver_open_blocks / quote_driver_line (the driver preserves the relation), nonblank_line_opens_block (with nothing open, openBlocks on a rest of line that is not blank answers newBlocksOpened), quote_prefix_run (class: both runs end normally, stores related, Document without lines and nobody's child, no list node - no assumption), quote_prefix_simulation_class / _partial / _checked (the tree statement for the class under the single assumption SegsNE). Full statement kept unproved as def QuotePrefixSimulationAll. Searched: blocks quotesim (tree statement on every tab/CR-free non-blank source of component blocks, 0 failures), blocks quotesimhyp (the former hypotheses of the whole-run theorem, a superset of SegsNE, on every class source, 0 failures; a failure is reported as 'hypothesis of the theorems not met'), component quote on HTML."
+PROPS["C08"]['assumptions'] = ["documents contain no tab and no carriage return (the property's proviso)", 'whole-run theorems only: D ends with a line feed and contains none of - * + 0-9', "tree statement only (quote_prefix_simulation_class): no line / info / closure segment stored by the model's run on D is empty (SegsNE; evaluated per source by the driver, not proved)", 'inline phase and renderer do not distinguish the two trees beyond the wrapping (searched by component quote)']
 
 # ---- C09 texts after packages indep / convert (notes/status_indep.md, notes/status_convert.md) ----
 PROPS["C09"]["claim"] += (" First half on the MODEL: stated on the block-phase model as GM.Props.C09.IndependentBlocks (not proved in general) and "
@@ -657,3 +677,33 @@ PROPS["C02"]["claim"] += (" The constants the implementation-side models embody 
 PROPS["C03"]["claim"] += (" Every literal the node renderers write is tied to the renderer model's on every run (consts_rendered_literals_tied, consts_named_constants_tied).")
 PROPS["C17"]["claim"] += (" The four delimiter-row regular expressions are tied to the hand-written matchers' source text on every run (consts_table_regexps_tied).")
 PROPS["C11"]["claim"] += (" The extensions' own regular expressions / openers are tied on every run (consts_extension_regexps_tied) and goldmark compiles exactly the 18 known expressions (consts_regexp_inventory_complete).")
+
+# ---- session 4, package gfmx (notes/status_gfmx.md): Strikethrough, TaskList and Table inside the composed model convertX ----
+PROPS["C11"]["claim"] += (" ACCEPT PATHS inside the composed model: GM.ConvertX.convertX (convertCore + any subset of Strikethrough, TaskList, Table: the "
+    "strikethrough inline parser with its own delimiter processor inside ProcessDelimiters, the task-list inline parser at priority 0, the table paragraph "
+    "transformer at priority 200 with cells through the inline phase and the escaped-pipe AST transformer), tied by component `convertx` to real goldmark "
+    "instances for all 8 member subsets x 8 renderer option sets, HTML byte for byte. WHOLE-DOCUMENT conservativity on that model, for every byte string: "
+    "convertx_off_is_core (all members off = convertCore), convertx_conservative_tasklist (no '[' => same output with and without TaskList; member sets "
+    "without Strikethrough), convertx_conservative_table (no '-' => same output with and without Table, for every member set, or the table transformer's "
+    "domain monitor - never seen in the tie); for Strikethrough only the byte-loop statement (convertx_conservative_strikethrough_partial): the "
+    "whole-document statement ConservativeStrikethrough is stated, not proved.")
+PROPS["C17"]["claim"] += (" On the composed model convertX (package gfmx, component `convertx`): the table the transformer builds nodes for inside the whole "
+    "pipeline is rectangular (convertx_tables_rectangular_partial); rectangularity of every table of the composed OUTPUT tree (TablesRectangular) is "
+    "stated and evaluated by the driver on every table document of the tie, not proved.")
+PROPS["C01"]["claim"] += (" With extensions in the composed model (convertX): the block phase of every member set terminates (block_phase_x_terminates, "
+    "table_transformer_admissible) and convertX never exhausts fuel for the member sets {} and {Table} (convertx_never_loops_partial); for Strikethrough / "
+    "TaskList it is reduced to InlineNoLoop (convertx_never_loops_of), not proved.")
+
+# ---- session 4, package shiftsim (notes/status_shiftsim.md): C09 shift invariance on the block-phase model ----
+PROPS["C09"]["claim"] += (" Step (iii) of the first half, SHIFT INVARIANCE, is kernel-checked for all block parsers but the two list parsers "
+    "(GM.Props.C09Shift, a forward simulation between `run b` and the run on `p ++ b`): for every prefix p that is empty or ends with a blank line and "
+    "EVERY b without - * + and digits (a last line without line feed included), from the state a heading line + blank line leaves (no open block, keys "
+    "reset) the rest of the run on p ++ b builds the store of `run b` with every line / info / closure segment moved by |p|, node ids renumbered, the line "
+    "numbers of the blank-line statistics shifted and the Document's old children in front (shift_invariance_list_free, shift_invariance_covered_all, "
+    "shift_invariance_store_shape); one-step lemmas for Open / Continue / Close of the eight non-list parsers (shift_step_open, "
+    "shift_step_continue_any_source, shift_step_close) and driver lemmas (shift_driver_open_blocks incl. retry loop and monitor, "
+    "shift_driver_blocks_any_source) for any covered parser set; the fuels of the two runs are never compared.")
+PROPS["C09"]["note"] = PROPS["C09"]["note"].replace("shift invariance of the line loop",
+    "shift invariance WITH list items (listItemParser.Continue needs the mid-line fact that listParser.Continue excluded IndentPosition = -1; KidsOK at "
+    "Close time; the flag emptyListItemWithBlankLines outliving its list); prefix determinism incl. 'closing at EOF = closing by blank line + heading'; "
+    "composition into IndependentBlocks")
